@@ -215,11 +215,11 @@ Proof.
 Qed.
 
 Definition op_wf (p : policy) (op : word) : bool :=
-  match dec_op op with Some (sizes, _) => rpc_wf p sizes | None => false end.
+  match dec_op op with Some (sizes, scs) => rpc_wf p sizes && stall_wf p op sizes scs | None => false end.
 
 Lemma dec_op_ok : forall op sizes scs, dec_op op = Some (sizes, scs) -> Forall (fun s => script_ok s = true) scs /\ sizes <> [].
 Proof.
-  intros op sizes scs H. unfold dec_op in H. destruct (get_bytes op) as [[sz [|k rest]]|]; try discriminate.
+  intros op sizes scs H. unfold dec_op, dec_plain in H. destruct (get_bytes (strip op)) as [[sz [|k rest]]|]; try discriminate.
   destruct (dec_scripts (length rest) rest) as [l|]; [|discriminate].
   destruct (_ && _) eqn:E; [|discriminate]. inversion H; subst.
   apply andb_prop in E. destruct E as [E Hn]. apply andb_prop in E. destruct E as [E Hs]. apply andb_prop in E. destruct E as [E Hk].
@@ -231,7 +231,7 @@ Lemma clause_op_model : forall p op o, 2 <= eff_max p -> run_op p op = Some o ->
 Proof.
   intros p op o Hp H. unfold run_op in H. unfold clause_op.
   destruct (dec_op op) as [[sizes scs]|] eqn:Hd; [|discriminate].
-  destruct (rpc_wf p sizes); [|discriminate]. inversion H; subst; clear H.
+  destruct (rpc_wf p sizes && stall_wf p op sizes scs); [|discriminate]. inversion H; subst; clear H.
   destruct (dec_op_ok _ _ _ Hd) as [Hok _].
   set (l := rpc_attempts p sizes scs).
   assert (Hne : l <> []).
@@ -257,4 +257,20 @@ Proof.
   assert (Hro : exists o, run_op p op = Some o) by (unfold run_op; rewrite Hd, Hop; eauto).
   destruct Hro as [o Ho]. exists (o :: obs). cbn [run_ops clauses_ops]. rewrite Ho, Hr. split; [reflexivity|].
   rewrite forallb_app, (clause_op_model p op o Hp Ho). exact Hh.
+Qed.
+
+(* the held-send schedule (SendMsg of message j overtaken by a concurrent RecvMsg that retries)
+   must give every attempt exactly what the sequential schedule gives it *)
+Theorem held_send_same : forall p j op o, run_op p (0 :: j :: op) = Some o -> run_op p op = Some o.
+Proof.
+  intros p j op o H. unfold run_op in *. unfold dec_op in *. cbn [strip] in H.
+  destruct (dec_plain op) as [[sizes scs]|] eqn:Hd; [|discriminate].
+  assert (Hs : strip op = op /\ stall_wf p op sizes scs = true).
+  { destruct op as [|h t]; [split; reflexivity|]. destruct h as [|h|h]; try (split; reflexivity).
+    exfalso. unfold dec_plain in Hd. cbn in Hd. destruct t as [|k rest]; [discriminate|].
+    destruct (dec_scripts (length rest) rest); [|discriminate].
+    rewrite andb_false_r in Hd. discriminate. }
+  destruct Hs as [Hs Hw]. rewrite Hs, Hd, Hw, andb_true_r.
+  destruct (rpc_wf p sizes); [|discriminate]. cbn [andb] in H.
+  destruct (stall_wf p (0 :: j :: op) sizes scs); [exact H|discriminate].
 Qed.
